@@ -110,6 +110,109 @@ def realise_plan(plan, files_by_url):
     return out
 
 
+def pool_listing(root: Path):
+    """relative path -> (size, int mtime) of the regular files of one repository's mirror directory that are
+    not below a dists* directory"""
+    out = {}
+    if not root.is_dir():
+        return out
+    for dp, dns, fns in os.walk(root):
+        if dp == str(root):
+            dns[:] = [d for d in dns if not d.startswith("dists")]
+        for n in fns:
+            f = os.path.join(dp, n)
+            try:
+                st = os.lstat(f)
+            except OSError:
+                continue
+            import stat as _stat
+            if _stat.S_ISREG(st.st_mode):
+                out[os.path.relpath(f, root)] = (st.st_size, int(st.st_mtime))
+    return out
+
+
+def queue_entry(df):
+    """one queued DownloadFile as the model's dfile (json-able)"""
+    vs = [{"paths": [str(p) for p in v.get_all_paths()], "source": str(v.get_source_path()), "size": v.size}
+          for v in df.iter_variants()]
+    return {"name": str(df.path), "variants": vs, "check_size": bool(df.check_size),
+            "ignore_errors": bool(df.ignore_errors), "ignore_missing": bool(df.ignore_missing)}
+
+
+def c_resp_of(resp):
+    """sim.Resp -> Coq resp of Download.v"""
+    from .common import cN, cZ, copt
+    if resp is None or resp.kind == "missing":
+        body = "BMissing"
+    elif resp.kind == "error":
+        body = "BError"
+    elif resp.kind == "ok":
+        n = len(resp.body) if resp.abort_after is None else min(resp.abort_after, len(resp.body))
+        body = "(BOk %s %s %s %s)" % (copt(resp.announced, cN), copt(resp.date, cZ), cN(n),
+                                      cbool(resp.abort_after is not None))
+    else:
+        raise ValueError(resp.kind)
+    return "{| pre_retries := 0; rbody := %s |}" % body
+
+
+POOL_HEADER = "From AM.Model Require Import Base Download Stage Converge."
+POOL_DEFS = """
+Definition same_sizes (t : lfs) (want : list (string * N)) : bool :=
+  Nat.eqb (List.length t) (List.length want) &&
+  forallb (fun e => match sizes t (fst e) with Some n => N.eqb n (snd e) | None => false end) want.
+(* (run counted nothing, tree right after the stage, tree after cleaning) *)
+Definition m_pool (c : list dfile * upstream * lfs * list (string * N) * option (list (string * N))) : bool * bool * bool :=
+  match c with (files, u, fs, after_stage, after_clean) =>
+    let '(rs, fs') := run_stage false files u fs in
+    (negb (stage_failed rs), same_sizes fs' after_stage,
+     match after_clean with
+     | None => true
+     | Some want => match pool_run files u fs with (true, t) => same_sizes t want | (false, _) => false end
+     end)
+  end.
+Definition eq_pool (a b : bool * bool * bool) : bool :=
+  match a, b with (x1, y1, z1), (x2, y2, z2) => Bool.eqb x1 x2 && Bool.eqb y1 y2 && Bool.eqb z1 z2 end.
+"""
+
+
+def pool_tie_row(o, files, faults, final_listing):
+    """the pool stage of one repository of one real run as a Converge.pool_run case.
+    o: Instrument observation of the repository; files: upstream path -> (data, mtime); faults: realised plan of the
+    repository; final_listing: pool listing at the end of the run when the repository was cleaned, else None."""
+    from .common import cN, cZ, cstr
+    from . import sim
+    q = o["pool_queue"]
+    f_terms = []
+    paths = []
+    for f in q:
+        vs = clist("{| vpaths := %s; vsource := %s; vsize := %s |}" % (
+            clist(cstr(p) for p in v["paths"]), cstr(v["source"]), cN(v["size"])) for v in f["variants"])
+        f_terms.append("{| dname := %s; variants := %s; check_size := %s; ignore_errors := %s; ignore_missing := %s |}" % (
+            cstr(f["name"]), vs, cbool(f["check_size"]), cbool(f["ignore_errors"]), cbool(f["ignore_missing"])))
+        for v in f["variants"]:
+            paths += v["paths"]
+    u_terms = []
+    for p in dict.fromkeys(paths):
+        good = None
+        if p in files:
+            data, mtime = files[p]
+            good = sim.Resp("ok", announced=len(data), date=mtime, body=data)
+        sc = (faults or {}).get(p)
+        if sc is None:
+            first, rest = [], good
+        else:
+            first = [good if x == "good" else x for x in sc.get("first", [])]
+            rest = good if sc.get("rest", "good") == "good" else sc["rest"]
+        u_terms.append("(%s, {| first := %s; rest := %s |})" % (cstr(p), clist(c_resp_of(r) for r in first), c_resp_of(rest)))
+    fs = clist("(%s, {| fsize := %s; fmt := Date %s |})" % (cstr(p), cN(sz), cZ(mt)) for p, (sz, mt) in sorted(o["pool_pre"].items()))
+    after = clist(ctuple(cstr(p), cN(sz)) for p, (sz, _) in sorted(o["pool_post"].items()))
+    fin = "None" if final_listing is None else "(Some %s)" % clist(
+        ctuple(cstr(p), cN(sz)) for p, (sz, _) in sorted(final_listing.items()))
+    term = ctuple(clist(f_terms), clist(u_terms), fs, after, fin)
+    ok = not (o.get("pool_err") or o.get("pool_miss"))
+    return term, ctuple(cbool(ok), "true", "true")
+
+
 class Instrument:
     """Wraps RepositoryMirror stage methods (from outside) to observe the flags the
     flow model takes as input."""
@@ -144,8 +247,15 @@ class Instrument:
             return r
 
         async def pool(m):
-            r = await inst.orig["download_pool_files"](m)
             o = inst.obs.setdefault(key(m), {})
+            root = m._config.mirror_path / m._repository.get_mirror_path(m._config.encode_tilde)
+            o["pool_pre"] = pool_listing(root)
+            r = await inst.orig["download_pool_files"](m)
+            try:
+                o["pool_queue"] = [queue_entry(f) for f in r]
+            except Exception as e:   # the observation must never disturb the run
+                o["pool_queue_error"] = repr(e)
+            o["pool_post"] = pool_listing(root)
             o["pool_err"] = m._downloader.has_errors()
             o["pool_miss"] = m._downloader.has_missing()
             return r
